@@ -174,7 +174,10 @@ def flat_py(t, x):
     if isinstance(t, TDict):
         items = {(k if not isinstance(k, list) else tuple(k)): flat_py(t.v, v) for k, v in x.items()}
         ncomp = len(t.v.sorts())
-        out = [Arr(lambda k, items=items: k in items)] + [Arr(lambda k, items=items, c=c: items[k][c] if k in items else 0) for c in range(ncomp)]
+        dflt = [0] * ncomp
+        if isinstance(t.v, TDict):
+            dflt = [Arr(lambda k: False)] + [Arr(lambda k: 0) for _ in range(ncomp - 1)]      # absent key of a dict of dicts: the empty dict
+        out = [Arr(lambda k, items=items: k in items)] + [Arr(lambda k, items=items, c=c, dflt=dflt: items[k][c] if k in items else dflt[c]) for c in range(ncomp)]
         if type(t).__name__ == "TODict":
             keys = list(items)          # python dicts keep insertion order
             index = {k: i for i, k in enumerate(keys)}
